@@ -614,6 +614,13 @@ def run_sequences(ctx, nseq, collect):
                         chk.append((dict(case, refused=repr(e)[:120]), None, None, None))
                         unaligned = [ib for ib in range(len(pre) - 1) for t in pre[ib]["targets"] if not aligned(pre, ib, t)]
                         ctx.count("refused: negative block height after per-component growth")
+                        # growth the top dummy block cannot absorb (the sum of the grown blocks reaches the assembly height)
+                        # is outside the property's domain: the refusal is the right answer
+                        need = sum(pre[ib]["comps"][tgt_of(pre[ib])]["g"] * pre[ib]["h"] for ib in range(len(pre) - 1)
+                                   if tgt_of(pre[ib]) is not None)
+                        if need >= H0 * (1.0 - 1e-9):
+                            ctx.count("refused: cumulative growth exceeds the dummy block")
+                            break
                         if unaligned and sub == "percomp":
                             if f9_budget[1] > 0:
                                 f9_budget[1] -= 1
@@ -2552,7 +2559,14 @@ def run(ctx):
                 "(run_retarget): 2-4 expansions of one assembly, the designated target of random blocks changed in between "
                 "(later -> earlier in the component order, earlier -> later, random; setAxialExpTargetComp or the parameter), a "
                 "brand-new changer each time, per-component growth; the targets must be exactly the currently designated "
-                "components.")
+                "components. Tight cold gaps (run_tight_gaps): constructor-built stacks whose pin cold od 0.760 < neighbouring "
+                "annulus cold id 0.765 < pin hot od (pin with clad, bare pin, annulus-only liner blocks) at 25 (= input) / "
+                "350 / 450 / 600 C and mixed temperatures: linkage table = the table at Thot = Tinput = the model's table from "
+                "cold dimensions, then two differential expansions. Long near-unity sequences (run_long_unity): 400 (thorough "
+                "2000) re-used-ExpansionData steps of 1 +- 2.5e-7..9e-7 and 120 (600) isothermal steps of +0.05 C; densities "
+                "against the exact product of the factors to 1e-10. Every stream runs under a guard: an exception that leaves "
+                "the real code on a valid input (fixture preparation, setAssembly / linkage construction, expandColdDimsToHot, "
+                "...) is a keyed failure with the assembly specification, not an infrastructure failure.")
 
 
 def search(ctx, disagreements, broken):
